@@ -79,6 +79,11 @@ def run(pid, t, replay=None):
             scns.append(dict(p=rnd.choice([0, 1, 2, 3, 5, 8, 12, 21]), la=la, lb=la + rnd.randint(1, 9), seed=rnd.randint(0, 10 ** 9),
                              mode=rnd.choice(["random", "random", "random", "fifo", "lifo"]), batch=rnd.choice([1, 2, 3, 10]),
                              b_knows_a=rnd.random() < 0.2, fails=rnd.choice([0, 0, 1, 2, 4])))
+        # beyond the listed property: a lite (spv) client on the same exchange - ghost chain, lite blocks for the blocks that
+        # touch its key; divergences are reported as observations in the evidence, a panic is a violation
+        for i in range(40 if t == "quick" else 600):
+            scns.append(dict(p=0, la=0, lb=rnd.randint(2, 16), seed=rnd.randint(0, 10 ** 9), lite=True,
+                             mode=rnd.choice(["random", "random", "fifo", "lifo"]), batch=rnd.choice([1, 2, 10])))
     spath = os.path.join(wd, "scenarios.jsonl")
     with open(spath, "w") as f:
         for s in scns:
@@ -95,6 +100,11 @@ def run(pid, t, replay=None):
     for k, lab in stalled:
         sig = dict(kind="stall", why="handler did not return", res="")
         violations.append((sig, write_replay(pid, dict(property=pid, scenario=scns[k], divergences=[sig], note=lab))))
+    lite_obs = {}
+    for b in bad:
+        if b["prop"] == "LITE":
+            lite_obs[b["why"]] = lite_obs.get(b["why"], 0) + 1
+    bad = [b for b in bad if b["prop"] == pid]
     by_scn = {}
     for b in bad:
         by_scn.setdefault(b["scn"], []).append(b)
@@ -109,14 +119,14 @@ def run(pid, t, replay=None):
                 unmatched.append(dict(sig, full=b["res"]))
         if unmatched:
             violations.append((unmatched[0], write_replay(pid, dict(property=pid, scenario=scns[k], divergences=unmatched, seed=seed(), tier=t))))
-    ex = sum(1 for s in scns if not s.get("estimate_only"))
+    ex = sum(1 for s in scns if not s.get("estimate_only") and not s.get("lite"))
     coverage = dict(
         states=max(dist, 1), transitions=max(gen_n, 1), traces_validated_against_impl=len(scns) - len(stalled), evaluations=consumed,
         distinct_nontrivial=len({json.dumps(s, sort_keys=True) for s in scns if s.get("estimate_only") or s["la"] > 0 or s.get("mode") != "fifo"}),
         rule="scenarios = (p, a, b) length triples straddling the fork-id checkpoints (estimate on real chains, compared with the transcription) + two-node "
              "exchanges for every small (prefix, own blocks, peer blocks, batch) under fifo / lifo / seeded random schedules of messages, fetch completions "
              "and internal queue items; non-trivial = estimate scenario, or exchange with a fork on the syncing side or a non-fifo schedule",
-        exchanges=ex, estimate_cases=len(scns) - ex, estimate_bound=EST_N[t], exchange_instances=inst,
+        exchanges=ex, estimate_cases=len(scns) - ex, lite_client_runs=sum(1 for s in scns if s.get("lite")), lite_observations=lite_obs, estimate_bound=EST_N[t], exchange_instances=inst,
         samples=[scns[0], scns[-1]], exhaustive=False,
         checker_cmd="tlc MC_Sync.tla (EstimateSafeN; SFair: STypeOK, NothingSkipped, Converges per instance; pinned orphan rule must violate Converges); harness/bin/sync; tlc SyncTrace.tla",
         trusted_base=["TLC 1.8.0", "harness fullnode.rs + sync.rs (in-memory network, scheduler)", "blocks served from the serving node's block files"],
